@@ -654,16 +654,16 @@ pub fn run(o: &Opts) -> i32 {
         let bigs: &[(usize, u32, &str)] = if o.thorough {
             &[(5000, 1 << 24, "random"), (5000, u32::MAX - 1, "descending"), (5000, 65536, "random"), (5000, 255, "dups"), (5000, (1 << 24) - 1, "highbytes"), (5000, 1 << 31, "bytes"), (20000, 1 << 24, "maxfirst")]
         } else {
-            &[(5000, 1 << 24, "maxfirst"), (5000, u32::MAX - 1, "descending"), (5000, 65536, "random")]
+            &[(5000, 1 << 24, "maxfirst"), (5000, u32::MAX - 1, "descending")]
         };
         for &(n, max, shape) in bigs {
             let mut r = next_rng(o.seed);
             emit(gen_radix(&mut r, n, max, shape), &mut w, &mut st, true);
         }
         // random blocks
-        for _ in 0..(if o.thorough { 1500 } else { 150 }) {
+        for _ in 0..(if o.thorough { 1500 } else { 70 }) {
             let mut r = next_rng(o.seed);
-            let n = if r.chance(1, 3) { r.below(64) } else { 64 + r.below(340) };
+            let n = if r.chance(1, 3) { r.below(64) } else { 64 + r.below(if o.thorough { 340 } else { 160 }) };
             let bits = 1 + r.below(32);
             let max = ((r.next() & ((1u64 << bits) - 1)) as u32).max(1);
             let shape = *r.pick(&SHAPES);
@@ -676,7 +676,7 @@ pub fn run(o: &Opts) -> i32 {
                 for rep in 0..(if o.thorough { 3 } else { 1 }) {
                     let mut r = next_rng(o.seed);
                     let s = gen_slice(&mut r, n, kind);
-                    let q = gen_queries(&mut r, &s, if o.thorough { 33 } else { 17 }, if o.thorough { 30 } else { 12 });
+                    let q = gen_queries(&mut r, &s, if o.thorough { 33 } else { 9 }, if o.thorough { 30 } else { 12 });
                     let tag = format!("{kind}#{rep}");
                     emit(Case::Scan { slice: s.clone(), queries: q.clone(), tag: tag.clone() }, &mut w, &mut st, false);
                     emit(Case::Bsf { slice: s, queries: q, tag }, &mut w, &mut st, false);
@@ -707,7 +707,7 @@ pub fn run(o: &Opts) -> i32 {
         hist(&nontrivial_by_kind),
         st.queries,
         st.panics,
-        json_str("corpus/idx seeds, then structured + seeded random inputs run through hook H6. radix sort: block maximum exactly at 255/256/65535/65536/2^24-1/2^24/2^24+1/2^31/u32::MAX-1/u32::MAX x sizes 0,1,2,10,63,64,65,100,300 (+5000) x shapes random/sorted/descending/few-distinct/one-byte/max-first/max-last/high-bytes, row ids ascending (1 in 8 weakly), scratch longer than needed and pre-filled with garbage in some, plus random blocks; non-trivial iff n >= 64 and the values are not already ascending (the radix passes run). radix_passes_for: every boundary +-2 and random values. searches: dense/gapped/duplicate-run/clustered sorted slices of 0..257 (+5000) offsets, ALL starts x (every element, element+-1, 0, u32::MAX) up to 17 offsets, sampled beyond; a scan case is non-trivial iff some query galloped >= 2 probes and ended Ok and another ended Err; a binary_search_from case iff some query with start > 0 found its target with everything before start below it. merges: sorted runs over small and huge universes, shared pairs forced, duplicates inside a run in 1 of 4, out empty / ending with the first merged pair / arbitrary; non-trivial iff both runs non-empty and sharing a pair. distinct by the whole input"),
+        json_str("corpus/idx seeds, then structured + seeded random inputs run through hook H6. radix sort: block maximum exactly at 255/256/65535/65536/2^24-1/2^24/2^24+1/2^31/u32::MAX-1/u32::MAX x sizes 0,1,2,10,63,64,65,100,300 (+5000) x shapes random/sorted/descending/few-distinct/one-byte/max-first/max-last/high-bytes, row ids ascending (1 in 8 weakly), scratch longer than needed and pre-filled with garbage in some, plus random blocks; non-trivial iff n >= 64 and the values are not already ascending (the radix passes run). radix_passes_for: every boundary +-2 and random values. searches: dense/gapped/duplicate-run/clustered sorted slices of 0..257 (+5000) offsets, ALL starts x (every element, element+-1, 0, u32::MAX) up to 9 offsets (33 at the thorough tier), sampled beyond; a scan case is non-trivial iff some query galloped >= 2 probes and ended Ok and another ended Err; a binary_search_from case iff some query with start > 0 found its target with everything before start below it. merges: sorted runs over small and huge universes, shared pairs forced, duplicates inside a run in 1 of 4, out empty / ending with the first merged pair / arbitrary; non-trivial iff both runs non-empty and sharing a pair. distinct by the whole input"),
         hist(&st.kind_hist),
         hist(&st.radix_size_hist),
         hist(&st.radix_tag_hist),
